@@ -90,7 +90,7 @@ def execute(case):
     st = {"env": False, "open": None, "accesses": 0}
 
     def now8():
-        t = trio.current_time() / ts * 8
+        t = (trio.current_time() - st.get("t0", 0.0)) / ts * 8
         assert abs(t - round(t)) < 1e-6, t
         return int(round(t))
 
@@ -214,12 +214,37 @@ def execute(case):
             close_step()
             events.append({"e": "End", "t": case["T"]})
             nursery.cancel_scope.cancel()
+        rs = case.get("restart")
+        if rs and kind in ("linear", "relative", "stepwise", "switch") and not any(e["e"] == "Raised" for e in events):
+            # the same service object is run once more after a pause (a runtime that is
+            # restarted): again one step at once, then one per interval counted from THIS start
+            second["events1"] = list(events)
+            del events[:]
+            await trio.sleep(rs["pause"] / 8 * ts)
+            st["t0"] = trio.current_time()
+            st["open"] = None
+            del log[:]
+            second["pool"] = observe()
+            async with trio.open_nursery() as nursery:
+                nursery.start_soon(service)
+                await trio.sleep_until(st["t0"] + rs["T"] / 8 * ts)
+                close_step()
+                events.append({"e": "End", "t": rs["T"]})
+                nursery.cancel_scope.cancel()
 
+    second = {}
     trio.run(main, clock=trio.testing.MockClock(autojump_threshold=0))
     close_step()
+    if second:
+        first = {"scn": scn, "pool": p0, "I": I, "pending": pending0, "fcount": fcount0, "events": second["events1"], "T": case["T"]}
+        return dict(first, second={"scn": scn, "pool": second["pool"], "I": I, "pending": 0, "fcount": 0, "events": list(events), "T": rs_T(case)})
     if kind == "factory":
         pending0 = 1
     return {"scn": scn, "pool": p0, "I": I, "pending": pending0, "fcount": fcount0, "events": events, "T": case["T"]}
+
+
+def rs_T(case):
+    return case["restart"]["T"]
 
 
 def build_ctl(scn, pool, log, interval):
@@ -324,7 +349,8 @@ def random_case(rnd, scns):
             if kind == "linear" and attr == "demand":
                 attr = "util"
             env.append({"t": t, "e": "Set", "attr": attr, "v": rnd.choice([0, 16, 32, 64]) if attr in ("supply", "demand") else rnd.randrange(0, 5)})
-    return {"scn": scn, "pool": pool, "I": I, "env": env, "T": T, "src": "random", "ts": 1.0 if default_window else rnd.choice([1.0, 1.0, 0.8, 1.1, 0.3])}
+    return {"scn": scn, "pool": pool, "I": I, "env": env, "T": T, "src": "random", "ts": 1.0 if default_window else rnd.choice([1.0, 1.0, 0.8, 1.1, 0.3]),
+            "restart": {"pause": rnd.choice([1, 3, I, I + 1, 2 * I + 3]), "T": rnd.choice([2, 3]) * I + rnd.choice([0, 1, I - 1])} if rnd.random() < 0.3 else None}
 
 
 def judge(ctx, cases, traces, verdicts):
@@ -380,11 +406,18 @@ def run(ctx):
     for _ in range(5000 if thorough else 900):
         cases.append(random_case(rnd, scns))
     traces = []
-    for c in cases:
+    cases0, cases = cases, []
+    for c in cases0:
         try:
-            traces.append(execute(c))
+            t = execute(c)
         except BaseException as e:  # noqa
             raise tlc.MachineryError("driver failed (%r) on case %s" % (e, json.dumps(c)))
+        t2 = t.pop("second", None)
+        cases.append(c)
+        traces.append(t)
+        if t2 is not None:
+            cases.append(dict(c, epoch=2))
+            traces.append(t2)
     verdicts, tstates = traceval.validate("PeriodicTrace", traces, DUMMY, timeout=3000)
     ctx.extra["trace_states"] = tstates
     judge(ctx, cases, traces, verdicts)
@@ -400,8 +433,10 @@ def run(ctx):
 def replay(ctx, payload):
     c = payload["case"]
     t = execute(c)
-    verdicts, _ = traceval.validate("PeriodicTrace", [t], DUMMY)
-    judge(ctx, [c], [t], verdicts)
+    t2 = t.pop("second", None)
+    ts_, cs_ = ([t, t2], [c, dict(c, epoch=2)]) if t2 is not None else ([t], [c])
+    verdicts, _ = traceval.validate("PeriodicTrace", ts_, DUMMY)
+    judge(ctx, cs_, ts_, verdicts)
     ctx.samples = [t]
     ctx.level = "exploration"
     ctx.distinct.update({"replay-a", "replay-b"})
